@@ -188,15 +188,19 @@ def main():
                 pr = c14_battery.run_case(tree, new, old, "rel", "str")
                 if pr:
                     bat.fail(f"{WHICH}.synthetic-sub-events", pr[0], {"kind": "sub", "tree": [[list(r), k] for r, k in tree], "new": new, "old": old}, "generate_sub_moved_events")
-        if WHICH == "C03":
-            # one operation at a time, end to end through the real emitter and kernel (+ probes of every directory afterwards)
+        if WHICH in ("C03", "C19"):
+            # one operation at a time, end to end through the real emitter and kernel (+ probes of every directory afterwards);
+            # for C19 (exact names) the directory renames / arrivals under a recursive watch only
             import c03_e2e
             for name in c03_e2e.names():
-                for recursive in (True, False):
+                if WHICH == "C19" and "directory" not in name:
+                    continue
+                for recursive in ((True, False) if WHICH == "C03" else (True,)):
                     bat.case(("e2e", name, recursive))
                     pr = c03_e2e.run_op(name, recursive)
                     if pr:
-                        bat.fail("C03.per-operation-contract", pr[0], {"kind": "e2e", "op": name, "recursive": recursive, "problems": pr[:2]}, "InotifyEmitter.queue_events")
+                        bat.fail(f"{WHICH}.per-operation-contract", pr[0], {"kind": "e2e", "op": name, "recursive": recursive, "problems": pr[:2]}, "InotifyEmitter.queue_events")
+        if WHICH == "C03":
             bat.case("phantom-after-move-out")
             pr = phantom()
             if pr:
